@@ -310,6 +310,83 @@ def access_harness(which):
     return harness
 
 
+def notify_mutation_harness(ex):
+    """a handler that removes itself (or adds another one) while call_notifiers is dispatching"""
+    trait_level = ex.flag("trait_level_handler_too")
+    action = ex.choice("action", 3)      # 0: first handler removes itself, 1: removes the next one, 2: adds a new one
+    calls = []
+
+    class O(HasTraits):
+        v = Int(1)
+
+    o = O()
+
+    def c(*a):
+        calls.append("c")
+
+    def b(*a):
+        calls.append("b")
+
+    def a(*args):
+        calls.append("a")
+        if action == 0:
+            o.on_trait_change(a, remove=True)
+        elif action == 1:
+            o.on_trait_change(b, remove=True)
+        else:
+            o.on_trait_change(lambda *x: calls.append("d"))
+
+    for h in (a, b, c):
+        o.on_trait_change(h)               # anytrait (object-level) notifiers
+    if trait_level:
+        o.on_trait_change(lambda *x: calls.append("t"), "v")
+    it = cenv.new_interp()
+    os_ = cenv.hastraits_struct(it, o)
+    it.st.rc.clear()
+    problem = None
+    try:
+        rc = it.call("has_traits_setattro", [os_, "v", 5])
+    except MemSafety as e:
+        problem = str(e)
+    ex.check(problem is None, "call_notifiers is memory-safe when a handler changes the notifier list during dispatch")
+    if problem is None:
+        ex.check(not neutral(it, NULL), "assignment with list-mutating handlers is reference-neutral")
+    return {"calls": "".join(calls)}
+
+
+def delete_harness(ex):
+    """del obj.x with handlers attached: the delete branch of setattr_trait, incl. a default method that raises"""
+    fail = ex.flag("default_raises")
+    state = {"fail": False}
+
+    class O(HasTraits):
+        n = Any()
+
+        def _n_default(self):
+            if state["fail"]:
+                raise RuntimeError("default failed")
+            return [1, 2]
+
+    o = O()
+    o.on_trait_change(lambda *a: None, "n")
+    o.n = ["assigned"]
+    state["fail"] = fail
+    it = cenv.new_interp()
+    os_ = cenv.hastraits_struct(it, o)
+    it.st.rc.clear()
+    problem = None
+    try:
+        rc = it.call("has_traits_setattro", [os_, "n", NULL])
+        if rc != 0 and it.st.err is None:
+            problem = "-1 without an exception"
+    except MemSafety as e:
+        problem = str(e)
+    ex.check(problem is None, "delete path is memory-safe")
+    if problem is None:
+        ex.check(not neutral(it, NULL), "delete path is reference-neutral on success and on the failing-default exit")
+    return {}
+
+
 def obligations(tier, build):
     prog = cenv.load_program(build)
     obs = []
@@ -340,4 +417,9 @@ def obligations(tier, build):
         obs.append(Obligation("access/%s" % which, access_harness(which), stubs=STUBS, witness_every=0,
                               bounds={"default kinds": "constant, TraitListObject, TraitDictObject, TraitSetObject, callable_and_args, callable (method)"},
                               leverage="choice feasibility only"))
+    obs.append(Obligation("access/notify-list-mutation", notify_mutation_harness, stubs=STUBS, witness_every=0,
+                          bounds={"handlers": 3, "mutation": "self-removal / removal of the next / addition, during dispatch"},
+                          leverage="choice feasibility only"))
+    obs.append(Obligation("access/delete", delete_harness, stubs=STUBS, witness_every=0,
+                          bounds={"default": "dynamic method, may raise"}, leverage="choice feasibility only"))
     return obs
